@@ -104,8 +104,19 @@ def has_bytes(ks):
     return any(isinstance(a, bytes) for _t, a in ks)
 
 
+def bytes_ok(b):
+    return all(32 <= c <= 126 and c != 92 for c in b) and not (39 in b and 34 in b)
+
+
+def key_ok(a):
+    if isinstance(a, bytes):
+        return bytes_ok(a)
+    return not isinstance(a, str) or str_ok(a)
+
+
 def path_ok(ks):
-    return all(not isinstance(a, bytes) and (not isinstance(a, str) or str_ok(a)) for _t, a in ks)
+    """mirror of PathModel.path_ok (the guard of the Coq theorems)"""
+    return all(key_ok(a) for _t, a in ks)
 
 
 SIB_KEYS = ["sib", 7, None, "x y", 2.5, "a", 0, True, "'", '"', "[0]", "root", ESC + "z"]
@@ -298,9 +309,10 @@ def run_sequences(ctx, name, seqs):
         ctx.seen((tuple(map(tuple, map(key_json, ks))), sib_seed), nontrivial=bool(ks))
         ctx.count("%s:%s" % (name, "inside_guard" if ok else "outside_guard"))
         ctx.count("depth:%d" % len(ks))
-        if why and has_bytes(ks):
+        if why and has_bytes(ks) and not all(key_ok(a) for _t, a in ks if isinstance(a, bytes)):
             # bytes keys are outside C09's quantifier: the model must agree with the code on
-            # them (correspondence below) but their round-trip failures are not reported
+            # them (correspondence below); the round-trip failures of bytes keys whose repr
+            # needs an escape (outside the Coq guard) are counted, not reported
             ctx.count("%s:bytes_key_roundtrip_failure(outside the property's universe)" % name)
         elif why:
             r = ctx.fail(case_dict(ks, sib_seed, why), why)
